@@ -1,6 +1,7 @@
 import Bec2Verif.Lemmas.Codec
 import Bec2Verif.Lemmas.Sqrt
 import Bec2Verif.Lemmas.P256Curve
+import Bec2Verif.Lemmas.KeyDer
 /-!
 # C19 — key and point encodings
 
@@ -75,6 +76,16 @@ theorem p256_compressed_point_roundtrip (x y : Nat) (hx : x < P256C.P) (hy0 : 0 
 /-- the Jacobi symbol routine of `numbertheory.py` is the Jacobi symbol -/
 theorem jacobi_is_jacobi_symbol (fuel a n : Nat) (j : Int) (h : jacobi fuel a n = some j) : j = jacobiSym a n :=
   jacobi_sound fuel a n j h
+
+/-- **private keys** of NIST P-256 in SEC1 (`ssleay`) and PKCS #8 form: `SigningKey.from_der ∘ to_der` returns the
+curve and exactly the secret, for every 32-byte secret string in `[1, n)` and whatever public-key string is embedded
+(the decoder ignores it) -/
+theorem p256_private_key_der_roundtrip (fmt : KeyDer.Fmt) (priv pub : Bytes) (hl : priv.length = 32)
+    (hp : pub.length ≤ 1000) (h1 : 1 ≤ fromBE priv) (h2 : (fromBE priv : Int) < Gen.NIST256p.n) :
+    KeyDer.privFromDer (KeyDer.privToDer fmt p256oid priv pub) = .ok (Gen.NIST256p, fromBE priv) := by
+  cases fmt with
+  | ssleay => exact KeyDer.ssleay_roundtrip priv pub hl hp h1 h2
+  | pkcs8 => exact KeyDer.pkcs8_roundtrip priv pub hl hp h1 h2
 
 /-- the fixed 27-byte header of `bec2format/crypto.py` (regenerated from the source: `Gen.RAW_DER_HEADER`) is exactly
 what the library's DER encoder puts in front of ANY raw 64-byte P-256 key … -/
